@@ -694,6 +694,9 @@ Proof.
   - eapply wordlist_nth_lt. exact Hw.
 Qed.
 
+Lemma Forall2_len {A B} (R : A -> B -> Prop) l1 l2 : Forall2 R l1 l2 -> length l1 = length l2.
+Proof. induction 1; cbn; auto. Qed.
+
 (* ------------------------------------------------------------------ sizes *)
 
 Lemma div8_32 L : exists q r, (L = 4 * q + r /\ r < 4 /\ L * 8 / 32 = q)%nat.
@@ -850,5 +853,134 @@ Section Main.
       + apply negb_false_iff. apply Z.eqb_eq. rewrite Nat2Z.inj_mul, Z.mul_comm. apply Z.mod_mul. lia.
       + apply Z.ltb_ge. lia.
       + apply Z.ltb_ge. lia.
+  Qed.
+  (* ---------------------------------------------------------------- EntropyFromMnemonic, evaluated *)
+
+  Lemma efm_eval s k idxs :
+    (4 <= k <= 8)%nat -> length (fields s) = (3 * k)%nat ->
+    Forall2 (fun w i => word_index w = Some i) (fields s) idxs ->
+    let N := sval idxs in
+    let e0 := pad_bytes (be_bytes (N / 2 ^ Z.of_nat k)) (4 * Z.of_nat k) in
+    entropy_from_mnemonic H s =
+      if N mod 2 ^ Z.of_nat k =? csv k (hash0 H e0) then Ok e0 else Err ErrChecksumIncorrect.
+  Proof.
+    intros Hk Hl F N e0. unfold entropy_from_mnemonic.
+    assert (Ln : len (fields s) = Z.of_nat (3 * k)) by (unfold len; rewrite Hl; reflexivity).
+    rewrite Ln.
+    replace (legal_count (Z.of_nat (3 * k))) with true
+      by (symmetry; apply legal_count_k; exists k; split; [lia|reflexivity]).
+    cbn [negb]. rewrite (efm_loop_ok _ idxs 0 ltac:(lia) F). fold (sval idxs). fold N.
+    replace (Z.of_nat (3 * k) / 3 * 4) with (4 * Z.of_nat k)
+      by (replace (Z.of_nat (3 * k)) with (Z.of_nat k * 3) by lia; rewrite Z.div_mul by lia; lia).
+    destruct (tables k (hash0 H e0) Hk) as (T1 & T2). rewrite T1.
+    replace (Z.ones (Z.of_nat k) + 1) with (2 ^ Z.of_nat k) by (rewrite Z.ones_equiv; lia).
+    fold e0. rewrite T2. rewrite Z.land_ones by lia. reflexivity.
+  Qed.
+
+  Lemma efm_illegal_count s : legal_count (len (fields s)) = false ->
+    entropy_from_mnemonic H s = Err ErrInvalidMnemonic.
+  Proof. intros E. unfold entropy_from_mnemonic. rewrite E. reflexivity. Qed.
+
+  Lemma efm_unknown_word s : legal_count (len (fields s)) = true ->
+    (exists w, In w (fields s) /\ word_index w = None) ->
+    entropy_from_mnemonic H s = Err ErrInvalidMnemonicWord.
+  Proof.
+    intros E (w & I & N). unfold entropy_from_mnemonic. rewrite E. cbn [negb].
+    destruct (efm_loop (fields s) 0) eqn:L; [|reflexivity].
+    apply efm_loop_some in L. destruct L as (idxs & F).
+    exfalso. clear E. induction F as [|w' i ws idxs Hw Hr IH]; [destruct I|].
+    destruct I as [->|I]; [congruence|auto].
+  Qed.
+
+  Lemma legal_words_k (ws : list str) :
+    (length ws = 12 \/ length ws = 15 \/ length ws = 18 \/ length ws = 21 \/ length ws = 24)%nat <->
+    exists k, (4 <= k <= 8)%nat /\ length ws = (3 * k)%nat.
+  Proof.
+    split.
+    - intros [E|[E|[E|[E|E]]]]; [exists 4%nat|exists 5%nat|exists 6%nat|exists 7%nat|exists 8%nat]; lia.
+    - intros (k & Hk & E). lia.
+  Qed.
+
+  (* acceptance: exactly the valid sentences, with their entropy *)
+  Theorem efm_accept_iff s e :
+    entropy_from_mnemonic H s = Ok e <-> valid_sentence H (fields s) e.
+  Proof.
+    unfold valid_sentence. split.
+    - intros E.
+      destruct (legal_count (len (fields s))) eqn:LC; [|rewrite efm_illegal_count in E by exact LC; discriminate].
+      pose proof LC as LC'. unfold len in LC'. apply legal_count_k in LC'. destruct LC' as (k & Hk & Hl).
+      assert (exists idxs, Forall2 (fun w i => word_index w = Some i) (fields s) idxs) as (idxs & F).
+      { unfold entropy_from_mnemonic in E. rewrite LC in E. cbn [negb] in E.
+        destruct (efm_loop (fields s) 0) eqn:L; [|discriminate]. eapply efm_loop_some. exact L. }
+      rewrite (efm_eval s k idxs Hk Hl F) in E. cbv zeta in E.
+      destruct (_ =? _) eqn:C in E; [|discriminate]. injection E as E. bool_hyps.
+      destruct (index_nat_of_Z _ _ F) as (Fn & Mz & Bn).
+      assert (Ln : length (map Z.to_nat idxs) = (3 * k)%nat).
+      { rewrite map_length. rewrite <- (Forall2_len _ _ _ F). exact Hl. }
+      destruct (decode_core (map Z.to_nat idxs) k e Hk Ln Bn) as (_ & D).
+      rewrite Mz in D. destruct D as (Ok_ & Eb).
+      { split; [symmetry; exact E|]. rewrite <- E. exact C. }
+      split; [apply legal_words_k; exists k; auto|]. split; [exact Ok_|].
+      exists (map Z.to_nat idxs). split; auto.
+    - intros (Lw & Ok_ & idxs & Fn & Eb).
+      apply legal_words_k in Lw. destruct Lw as (k & Hk & Hl).
+      destruct (index_Z_of_nat _ _ Fn) as (F & Bn).
+      assert (Ln : length idxs = (3 * k)%nat) by (rewrite <- (Forall2_len _ _ _ Fn); exact Hl).
+      destruct (decode_core idxs k e Hk Ln Bn) as (D & _). destruct (D (conj Ok_ Eb)) as (Ee & Ec).
+      rewrite (efm_eval s k (map Z.of_nat idxs) Hk Hl F). cbv zeta. rewrite <- Ee.
+      rewrite Ec, Z.eqb_refl. reflexivity.
+  Qed.
+  (* ---------------------------------------------------------------- round trip *)
+
+  Lemma idx_of_chunks cs : forall ws,
+    Forall2 (fun w i => 0 <= i /\ nth_error wordlist (Z.to_nat i) = Some w) ws (map bits_val cs) ->
+    Forall2 (fun w i => nth_error wordlist i = Some w) ws (map (fun c => Z.to_nat (bits_val c)) cs).
+  Proof.
+    induction cs as [|c cs IH]; intros ws F; inversion F as [|w ? ws' ? (_ & Hw) Hr]; subst; constructor; auto.
+  Qed.
+
+  Lemma bits_of_chunks cs : Forall (fun c : list bool => length c = 11%nat) cs ->
+    flat_map (fun i => bits_of 11 (Z.of_nat i)) (map (fun c => Z.to_nat (bits_val c)) cs) = concat cs.
+  Proof.
+    induction 1 as [|c cs Hc Hr IH]; [reflexivity|].
+    cbn [map flat_map concat]. rewrite IH. f_equal.
+    pose proof (bits_val_bounds c). rewrite Z2Nat.id by lia.
+    rewrite <- Hc. apply bits_of_bits_val.
+  Qed.
+
+  Lemma spec_encode_valid e : legal_len e -> bytes_ok e ->
+    exists ws, spec_encode H e = Ok (join_sp ws) /\ valid_sentence H ws e /\
+               Forall (fun w => plain_word w = true) ws.
+  Proof.
+    intros LL He. unfold spec_encode. pose proof LL as LB. apply legal_lenb_iff in LB. rewrite LB.
+    apply legal_len_k in LL. destruct LL as (k & Hk & Hl).
+    destruct (encode_core e k He Hk Hl) as (La & _). rewrite La.
+    replace (11 * (3 * k) / 11)%nat with (3 * k)%nat
+      by (symmetry; rewrite Nat.mul_comm; apply Nat.div_mul; lia).
+    set (all := bits e ++ checksum_bits H e) in *.
+    pose proof (chunks_each (3 * k) all La) as CE.
+    destruct (lookup_words_total (map bits_val (chunks (3 * k) all))) as (ws & Lk).
+    { apply Forall_forall. intros i Hi. apply in_map_iff in Hi. destruct Hi as (c & <- & Hc).
+      rewrite Forall_forall in CE. specialize (CE c Hc).
+      pose proof (bits_val_bounds c) as B. unfold len in B. rewrite CE in B. exact B. }
+    rewrite Lk. exists ws. split; [reflexivity|].
+    pose proof (idx_of_chunks _ _ (lookup_words_some _ _ Lk)) as F.
+    split.
+    - unfold valid_sentence. split; [|split; [exact He|]].
+      + apply legal_words_k. exists k. split; [exact Hk|].
+        etransitivity; [exact (Forall2_len _ _ _ F)|]. rewrite map_length, chunks_length. reflexivity.
+      + exists (map (fun c => Z.to_nat (bits_val c)) (chunks (3 * k) all)). split; [exact F|].
+        rewrite bits_of_chunks by exact CE. apply chunks_concat. exact La.
+    - clear Lk. induction F as [|w i ws' is' Hw Hr IH]; constructor; auto.
+      eapply wordlist_nth_plain. exact Hw.
+  Qed.
+
+  Theorem roundtrip e : legal_len e -> bytes_ok e ->
+    exists m, new_mnemonic H e = Ok m /\ entropy_from_mnemonic H m = Ok e.
+  Proof.
+    intros LL He. destruct (spec_encode_valid e LL He) as (ws & Es & V & P).
+    exists (join_sp ws). split.
+    - rewrite new_mnemonic_is_spec by exact He. exact Es.
+    - apply efm_accept_iff. rewrite fields_join by exact P. exact V.
   Qed.
 End Main.
